@@ -1,8 +1,10 @@
 #!/bin/bash
-# tools_seed_matrix.sh : run every seeded change against the quick tier of its property's check; one line each.
+# tools_seed_matrix.sh [check...] : run every seeded change (of the given properties; default all) against the
+# quick tier of its property's check; one line each.
 cd "$(dirname "$0")"
 for d in seeded/*/; do
   id=$(basename $d); chk=${id%%-*}
+  if [ $# -gt 0 ]; then case " $* " in *" $chk "*) ;; *) continue;; esac; fi
   out=$(./tools_seed_run.sh $id $chk 2>&1 | head -1)
   rc=$(echo "$out" | sed -n 's/.* rc=\([0-9]*\) .*/\1/p')
   echo "$id $chk rc=$rc"
